@@ -1,6 +1,7 @@
 import PicoProofs.FieldNumLemmas
 import PicoProofs.GoTieSmall
 import PicoProofs.GoTieDecoder
+import PicoProofs.GoTieDecTypes
 import PicoProofs.Tie
 import PicoModel.Decoder
 /-
@@ -62,5 +63,25 @@ theorem C19_source_fail_latches (field : Int) (msg : String) (d : Dec.Dec) :
 
 example : fieldString (-2147483648) = .ok "-2147483648" := fieldString_decimal _ (by decide)
 example : fieldString 1099999999 = .ok "1099999999" := fieldString_decimal _ (by decide)
+
+open Pico.GoTie.DT in
+/-- SOURCE: the reader translated from decoder_types.go, called on its own field with the wrong wire
+type, leaves `*v` alone and latches an error naming the field it was called with -/
+theorem C19_source_wrong_wire_names_field (k : Scalar) (field : Int) (d : Dec.Dec) (v : GoVal k)
+    (hp : d.cur.pendingField = field) (hw : d.cur.pendingWire ≠ k.wire) :
+    ∃ d', srcReadSingle k field d v = .ok (d', v) ∧
+      d'.err = some (field, "expected wire type " ++ Dec.wireName k.wire) ∧ d'.cur.pendingField = -1 := by
+  obtain ⟨d', h1, h2, h3⟩ := C19_wrong_wire_names_field k field d hp hw
+  exact ⟨d', by rw [readSingle_tie, h1]; rfl, h2, h3⟩
+
+open Pico.GoTie.DT in
+/-- SOURCE: … and with an unparsable value it names the field and the primitive -/
+theorem C19_source_bad_value_names_field (k : Scalar) (field : Int) (d : Dec.Dec) (v : GoVal k)
+    (hp : d.cur.pendingField = field) (hw : d.cur.pendingWire = k.wire)
+    (hbad : (Dec.consumeScalar false k d.cur.buffer).2 < 0) :
+    ∃ d', srcReadSingle k field d v = .ok (d', v) ∧
+      d'.err = some (field, "unable to parse " ++ Dec.primName k) ∧ d'.cur.pendingField = -1 := by
+  obtain ⟨d', h1, h2, h3⟩ := C19_bad_value_names_field k field d hp hw hbad
+  exact ⟨d', by rw [readSingle_tie, h1]; rfl, h2, h3⟩
 
 end Pico.Props
